@@ -417,6 +417,8 @@ def r5_clone_provenance(facts):
             ok, why = _opt_rc_from(facts, b, e0, selfv, name, env, reassigned)
             if ok:
                 c.ok(inst, where, "derived from self.%s through Option/Rc clone adaptors only" % name)
+            elif why.startswith("unexpected expression") and any(_self_field(x, selfv) == name for x in walk(e0) if x.get("k") in ("Field",)):
+                c.unk(inst, where, "%s is computed from self.%s in a form this rule does not read: %s" % (name, name, why))
             else:
                 c.bad(inst, where, "%s must be a clone of self.%s: %s" % (name, name, why))
         elif cls == "flag":
@@ -490,6 +492,27 @@ def _opt_rc_from(facts, b, e, selfv, name, env, reassigned, depth=0):
                     return True, ""
                 return False, "map closure is not Rc::clone of its argument: %s" % show(croot)[:120]
             return True, ""
+    if e.get("k") == "Match" and len(e.get("arms") or []) == 2:
+        # match &self.F { Some(x) => Some(Rc::clone(x)), None => None }
+        ok, why = _opt_rc_from(facts, b, e["scrutinee"], selfv, name, env, reassigned, depth + 1)
+        if ok:
+            good = 0
+            for a in e["arms"]:
+                p = a["pat"]
+                while isinstance(p, dict) and p.get("k") in ("Deref", "DerefPattern"):
+                    p = p["sub"]
+                body = strip(a["body"])
+                while isinstance(body, dict) and body.get("k") == "Block" and not body["stmts"] and body.get("e") is not None:
+                    body = strip(body["e"])
+                if p.get("k") == "Variant" and p.get("variant") == "Some" and body.get("k") == "Adt" and body.get("variant") == "Some":
+                    binds = [v for v, _, _, _ in F.pat_bindings(p)]
+                    inner = strip(body["fields"][0]["e"])
+                    if inner.get("k") == "Call" and (resolved(inner) == RC_CLONE or callee(inner) == "core::clone::Clone::clone") and binds and var_of(inner["args"][0]) == binds[0]:
+                        good += 1
+                elif p.get("k") == "Variant" and p.get("variant") == "None" and body.get("k") == "Adt" and body.get("variant") == "None":
+                    good += 1
+            if good == 2:
+                return True, ""
     return False, "unexpected expression %s" % show(e)[:120]
 
 
@@ -767,6 +790,48 @@ def r16_ctor_funnel(facts):
         c.check(d in allowed, "literal:%s" % d, where,
                 "Array literal in an allowed body (%s)" % ("constructor funnel" if fb and d == fb["def"] else "Clone"),
                 "Array { .. } literal outside the asserting constructor and Clone: bypasses the dimension/length assertions")
+    # (a') refusal grounds: a constructor refuses on the shape (a zero dimension, differing nested shapes, a wrong element count), never on the values
+    from .config_rules import _panics
+    fl_ = facts.float or "f64"
+    n_ctor_asserts = 0
+    ctor_bodies = []
+    for b0 in facts.fns():
+        if b0.get("impl_self") == ARRAY and b0.get("impl_trait_def") == "core::convert::From":
+            for x in callees_closure(facts, b0, depth=2):
+                if x["kind"] in ("Fn", "AssocFn") and x not in ctor_bodies and (x is b0 or (x.get("impl_trait_def") is None and not x.get("reachable") and x.get("impl_self") in (None, ARRAY)
+                                                                                             and x.get("name") not in ("tracked", "untracked"))):
+                    ctor_bodies.append(x)
+    for b in ctor_bodies:
+        for n in walk(facts.root(b)):
+            if n.get("k") == "If" and n.get("else") is None and _panics(n["then"]):
+                n_ctor_asserts += 1
+                todo, seen_c, reads = [n["cond"]], set(), None
+                while todo and reads is None:
+                    e_ = todo.pop()
+                    for x in walk(e_):
+                        if (x.get("ty") or "") in (fl_, "&" + fl_, "&&" + fl_, "&mut " + fl_):
+                            reads = x
+                            break
+                        if x.get("k") in ("VarRef", "UpvarRef"):
+                            # a local Boolean computed earlier: look at its initialiser
+                            for y in walk(facts.root(b)):
+                                if y.get("k") == "Block":
+                                    for st in y["stmts"]:
+                                        if st["s"] == "let" and st["pat"].get("k") == "Binding" and st["pat"]["v"] == x["v"] and st.get("init") is not None and id(st["init"]) not in seen_c:
+                                            seen_c.add(id(st["init"]))
+                                            todo.append(st["init"])
+                        if x.get("k") == "Closure" and x["closure"] not in seen_c:
+                            seen_c.add(x["closure"])
+                            cb = facts.body(x["closure"])
+                            if cb:
+                                todo.append(facts.root(cb))
+                inst = "refusal:%s" % b["def"]
+                if reads is not None:
+                    c.bad(inst, loc(b, n), "a constructor's assertion reads the values themselves (`%s`): arrays of a valid shape are refused because of what they contain "
+                          "(the constructors refuse only a zero dimension, differing nested shapes or a wrong element count)" % show(reads)[:60])
+                else:
+                    c.ok(inst, loc(b, n), "the assertion reads dimensions / lengths only")
+    c.floor("assertions in the From<..> for Array constructors and their private helpers", n_ctor_asserts, 1)
     if set(lit_bodies) != mir_bodies:
         c.unk("literal:thir-vs-mir", "-", "THIR and MIR disagree on where Array aggregates are built: %s vs %s"
               % (sorted(lit_bodies), sorted(mir_bodies)))
@@ -796,12 +861,36 @@ def r16_ctor_funnel(facts):
     got, n_asserted = collect_asserted(facts, stmts, {dim_v: "dims", val_v: "vals"})
     got_pos = got.get("positive")
     got_len = got.get("count")
-    c.check(got_pos is not None, "funnel:assert-positive-dimensions", loc(fb, got_pos or root),
-            "every path to the literal passes an assertion that every stored dimension is >= 1",
-            "no dominating assertion that every dimension is >= 1 (a zero dimension would be accepted)")
-    c.check(got_len is not None, "funnel:assert-element-count", loc(fb, got_len or root),
-            "every path to the literal passes `product(dimensions) == values.len()` over the stored operands",
-            "no dominating assertion that the product of the dimensions equals the number of values")
+
+    def _unread_refusals(body, role_vars):
+        """refusals (diverging branches) in `body` or in the crate-local functions it hands the role variables to, in a form collect_asserted does not read"""
+        from .config_rules import _panics as _pn
+        n_ = 0
+        for x in callees_closure(facts, body, depth=2):
+            if x is not body and not any(
+                    y.get("k") == "Call" and resolved(y) == x["def"] and any(var_of(peel(a)) in role_vars or any(z.get("k") in ("VarRef", "UpvarRef") and z["v"] in role_vars for z in walk(a)) for a in y["args"])
+                    for y in walk(facts.root(body))):
+                continue
+            for nb in facts.nested(x):
+                for y in walk(facts.root(nb)):
+                    if y.get("k") == "If" and _pn(y["then"]) or (y.get("k") == "Match" and any(_pn(a["body"]) for a in y["arms"])):
+                        n_ += 1
+        return n_
+    unread = _unread_refusals(fb, {dim_v, val_v}) - n_asserted
+    if got_pos is None and unread > 0:
+        c.unk("funnel:assert-positive-dimensions", loc(fb, root), "the constructor refuses something about its dimensions / values (%d refusal(s), some in helper functions) in a form this rule does not read: "
+              "whether a zero dimension is refused is not decided" % unread)
+    else:
+        c.check(got_pos is not None, "funnel:assert-positive-dimensions", loc(fb, got_pos or root),
+                "every path to the literal passes an assertion that every stored dimension is >= 1",
+                "no dominating assertion that every dimension is >= 1 (a zero dimension would be accepted)")
+    if got_len is None and unread > 0:
+        c.unk("funnel:assert-element-count", loc(fb, root), "the constructor refuses something about its dimensions / values (%d refusal(s), some in helper functions) in a form this rule does not read: "
+              "whether a wrong element count is refused is not decided" % unread)
+    else:
+        c.check(got_len is not None, "funnel:assert-element-count", loc(fb, got_len or root),
+                "every path to the literal passes `product(dimensions) == values.len()` over the stored operands",
+                "no dominating assertion that the product of the dimensions equals the number of values")
     asserted = [None] * n_asserted
     c.count("assertions on the straight-line path to the literal", len(asserted))
     # (c) From<Vec<Array>> asserts pairwise-equal shapes
@@ -814,9 +903,24 @@ def r16_ctor_funnel(facts):
         c.floor("From<Vec<Array>>", 0, 1)
     else:
         ok = _nested_shape_assert(facts, nested)
-        c.check(ok, "nested:assert-equal-shapes", "%s:%d" % (F.rel(nested["file"]), nested["sp"][0]),
-                "From<Vec<Array>> asserts (before building) that all contained dimensions are equal",
-                "From<Vec<Array>> does not assert that contained arrays have equal dimensions (ragged nesting accepted)")
+        # a comparison of two arrays' dimensions under a refusal somewhere in the conversion or a helper it calls, in another form
+        other_form = False
+        if not ok:
+            from .config_rules import _panics as _pn2
+            for x in callees_closure(facts, nested, depth=2):
+                if x is not nested and (x.get("impl_self") == ARRAY or x.get("impl_trait_def")):
+                    continue
+                for nb in facts.nested(x):
+                    for y in walk(facts.root(nb)):
+                        if y.get("k") == "If" and _pn2(y["then"]) and sum(1 for z in walk(y["cond"]) if z.get("k") == "Field" and z.get("name") == "dimensions") >= 2:
+                            other_form = True
+        if not ok and other_form:
+            c.unk("nested:assert-equal-shapes", "%s:%d" % (F.rel(nested["file"]), nested["sp"][0]),
+                  "From<Vec<Array>> (or a helper it calls) refuses on a comparison of two arrays' dimensions in a form this rule does not read")
+        else:
+            c.check(ok, "nested:assert-equal-shapes", "%s:%d" % (F.rel(nested["file"]), nested["sp"][0]),
+                    "From<Vec<Array>> asserts (before building) that all contained dimensions are equal",
+                    "From<Vec<Array>> does not assert that contained arrays have equal dimensions (ragged nesting accepted)")
     # the other constructors have no literal (a) so they can only build through the funnel
     return c
 
@@ -1234,7 +1338,8 @@ def r17_eq_fields(facts):
             c.bad(inst + "#shape", where,
                   "equality is not the conjunction of 'dimensions equal' and 'values equal': with dimensions %s and values %s%s it returns %s"
                   % ("equal" if d else "different", "equal" if v else "different",
-                     (" (and %s)" % ", ".join("%s = %s" % (k[:50], x) for k, x in fr.items())) if fr else "", r),
+                     (" (and %s)" % ", ".join("%s = %s" % (k[:50], x) for k, x in fr.items())) if fr else "", r)
+                  + (" — the same handle has equal dimensions, but an array that holds a NaN is not `==` to itself element by element" if any(k.startswith("identity:") and x for k, x in fr.items()) and d and not v else ""),
                   {"truth_table": [{"D": d, "V": v, "free": fr, "result": r} for d, v, fr, r in rows[:16]]})
         else:
             c.ok(inst + "#shape", where, "returns %s(dimensions equal AND values equal) under all %d assignments" % ("NOT " if negated else "", len(rows)),
@@ -1290,7 +1395,19 @@ def r20_ownership_edges(facts):
                 for e in p["proj"]:
                     if isinstance(e, dict) and e.get("adt") == ARRAY and e["field"] == edge_name:
                         writers.setdefault(b["def"], []).append(p)
-    c.floor("writers of the edge list", len(writers), 1)
+    # a struct-update literal `Array { children: .., ..base }` sets the edge list of a new value built from `base`
+    lit_writers = []
+    for b in facts.bodies:
+        for n in walk(facts.root(b)):
+            if n.get("k") == "Adt" and n.get("adt") == ARRAY and n.get("base") is not None and any(f_["name"] == edge_name for f_ in n["fields"]):
+                lit_writers.append((b, n))
+    c.floor("writers of the edge list", len(writers) + len(lit_writers), 1)
+    for b, n in lit_writers:
+        is_builder = b.get("name") == "with_children" and b.get("impl_self") == ARRAY and not b.get("reachable")
+        by_value_self = var_of(strip(n["base"])) == self_var(facts, b) and (b.get("inputs") or [""])[0] == ARRAY
+        c.check(is_builder and by_value_self, "edge-writer:%s" % b["def"], loc(b, n),
+                "edge list is set once, on the by-value array under construction (struct-update in the private builder)",
+                "the operand edge list is set by a struct-update literal outside the private by-value builder (%s): edges of an existing node could change" % b["def"])
     for d, ps in writers.items():
         b = facts.body(d)
         for p in ps:
@@ -1417,4 +1534,12 @@ def r20_ownership_edges(facts):
                             "%s:%d" % (F.rel(b["file"]), p["sp"][0]),
                             "whole-slot assignment (the previous value is dropped)",
                             "%s.%s is modified in place (%s) rather than replaced" % (d, f["name"], p["ctx"]))
+    return c
+
+
+def r16_literals_only(facts):
+    """every Array value is built by the checked constructor (fresh, empty slots) or by Clone: no struct literal elsewhere copies another array's owning slots (children, gradient, pending delta) into a new value"""
+    c = r16_ctor_funnel(facts)
+    c.obs = [o for o in c.obs if "@literal:" in o.key or "@floor:" in o.key or "@anchor-missing:" in o.key or "@coverage-reduced:" in o.key]
+    c.title = "Array literals only in the constructor and Clone (no copied owning slots)"
     return c
